@@ -280,6 +280,8 @@ pub enum SEv {
     Interrupt,
     /// `x`
     DropStream,
+    /// `u<i>`: the FnRef of function i is dropped while a panic unwinds (caught by the consumer)
+    DropUnwind(usize),
     /// `t<k>`: consume the whole stream inside a tokio current-thread runtime, holding at most `k`
     /// FnRefs (must be the only event of the run)
     Tokio(usize),
@@ -294,6 +296,7 @@ pub fn fmt_sev(e: &SEv) -> String {
         SEv::Drop(i) => format!("d{i}"),
         SEv::Interrupt => "i".to_string(),
         SEv::DropStream => "x".to_string(),
+        SEv::DropUnwind(i) => format!("u{i}"),
         SEv::Tokio(k) => format!("t{k}"),
         SEv::Race(k) => format!("r{k}"),
     }
@@ -310,6 +313,9 @@ pub fn parse_sev(tok: &str) -> Result<SEv, String> {
             }
             if let Some(k) = tok.strip_prefix('r').and_then(|n| n.parse::<usize>().ok()) {
                 return Ok(SEv::Race(k));
+            }
+            if let Some(i) = tok.strip_prefix('u').and_then(|n| n.parse::<usize>().ok()) {
+                return Ok(SEv::DropUnwind(i));
             }
             tok.strip_prefix('d')
                 .and_then(|n| n.parse::<usize>().ok())
